@@ -26,7 +26,7 @@ VARIABLES
   flt,        \* filter name -> filter configuration (from the reset event)
   logins,     \* sid -> login ghost [f, state, nonce, challenge, url, at] taken from the authorize answer that issued sid
   presented,  \* sids seen in requests
-  consumed,   \* sids whose login completed (callback answered with the application redirect)
+  consumed,   \* sids whose login completed (callback answered with the application redirect, or its tokens reached the store)
   dead,       \* sid -> trace index of the RemoveSession of an answered logout
   codes,      \* code -> [sid, challenge, clientId, redirectUri, used]
   idtok,      \* id-token symbol -> ground truth [sigOK, audOK, nonce, exp, class]
@@ -600,7 +600,11 @@ StoreEv ==
                    ELSE lastStored
   /\ stored' = IF E.op = "SetTokenResponse" /\ E.fault = "none" /\ ~E.err THEN stored \cup {E.sid} ELSE stored
   /\ gone' = IF (E.op = "RemoveSession" /\ E.fault # "before") \/ E.err THEN gone \cup {E.sid} ELSE gone
-  /\ UNCHANGED <<now, sc, flt, logins, presented, consumed, codes, idtok, rtl, lastUse, attok, br>>
+  \* a callback whose tokens reached the store has completed the login, whatever is answered afterwards: the session is
+  \* authenticated, so its login state is used up
+  /\ consumed' = IF E.op = "SetTokenResponse" /\ E.fault = "none" /\ ~E.err /\ E.arg.ex /\ Req(E.n).kind = "callback"
+                 THEN consumed \cup {E.sid} ELSE consumed
+  /\ UNCHANGED <<now, sc, flt, logins, presented, codes, idtok, rtl, lastUse, attok, br>>
 
 IdpEv ==
   /\ E.ev = "idp"
